@@ -143,6 +143,20 @@ Definition failok_bad (c : lcase) : bool :=
       | SAmb _ => false
       end) (l_steps ln)) (s_lines sc)) ac) (lc_play c).
 
+(** The repeated section stopped before its count was reached (or without a
+    count) although no failure occurred: then the `repeat time` bound T must have
+    been exceeded at the end of the last iteration, measured from the end of the
+    first pass.  That end is not later than the exit, and the first pass did not
+    end before its last action did (nor before the launch): necessary condition
+    [exit - max (launch, ends of the first pass) > T].  Without a time bound the
+    count alone decides. *)
+Definition stopped_early_bad (c : lcase) (K : nat) : bool :=
+  let has_rep := Nat.ltb (count_insts (expected c 1)) (count_insts (expected c 2)) in
+  let below_count := (lc_count c <=? 0) || Nat.ltb K (Z.to_nat (lc_count c)) in
+  (lc_exit c =? 0) && has_rep && (0 <? Z.of_nat (lc_ran c)) && (0 <=? lc_timeout c) && below_count &&
+  let base := iter_bound c K Z.max lr_end 0%nat (lc_launch c) in
+  (lc_exit_t c - base <=? lc_timeout c).
+
 Definition c05_oracle_mask (c : lcase) : N :=
   let K := K_obs c in
   let ex := expected c K in
@@ -156,7 +170,7 @@ Definition c05_oracle_mask (c : lcase) : N :=
  (N.add (bit (exit0 && hard) 2%N)
  (N.add (bit (negb consistent) 4%N)
  (N.add (bit (negb hard && (lc_spot c <? 3)%N && negb exit0) 8%N)
- (N.add (bit (extra || wrong_count) 16%N)
+ (N.add (bit (extra || wrong_count || stopped_early_bad c K) 16%N)
  (N.add (bit (repeat_time_bad c K) 32%N)
         (bit (failok_bad c || negb (play_eqb (lc_play c) (lc_script c))) 64%N)))))).
 
